@@ -8,6 +8,7 @@ import (
 	"strings"
 
 	"verif/checker/internal/dtab"
+	"verif/checker/internal/load"
 	"verif/checker/internal/sym"
 )
 
@@ -152,7 +153,7 @@ func sideOf(b ast.Node) string {
 	side := ""
 	ast.Inspect(b, func(n ast.Node) bool {
 		if sel, ok := n.(*ast.SelectorExpr); ok {
-			if sel.Sel.Name == "left" || sel.Sel.Name == "right" {
+			if sel.Sel.Name == bstF.small || sel.Sel.Name == bstF.large {
 				if side == "" {
 					side = sel.Sel.Name
 				} else if side != sel.Sel.Name {
@@ -168,6 +169,7 @@ func sideOf(b ast.Node) string {
 // CheckC17: structural rules for the ring buffer and the search tree.
 func CheckC17(c *Ctx) {
 	run := c.Run
+	c.resolveContainerFields()
 	run.Technique = "typed-AST lints with finite decision tables: ordering decisions in generic numeric code must use comparison operators (never the sign of a difference); Insert and search must route every ordering {<,=,>} consistently; every Ring index is reduced modulo the buffer length"
 	run.Explanation = "Conformance of Ring and Bst to the FIFO / multiset models under arbitrary histories is NOT decided. Three structural necessary conditions are: (1) no ordering decision on generic numeric values is taken from the sign of a difference (for integer element types the subtraction overflows: Bst[int8] holding -100 cannot find 100); (2) evaluated on the three orderings of (searched value, node value), Insert and searchNode send smaller keys to the same side, larger keys to the same side and searchNode stops on equality; (3) every index into Ring.buffer is begin/end or reduced modulo len(buffer), and begin/end advance only through nextIndex, whose body is (i+1) % len(buffer). Ring state invariant: `empty => begin == end` is established by NewRing and preserved on every path of every Ring method (each method's guarded commands, receiver fields as state); Put writes at end and Get/At read from begin, so an empty ring with different indices returns slots that were never filled."
 	run.Trusted = []string{"go/types", "finite ordering domain {<,=,>} (values are only compared)"}
@@ -249,7 +251,7 @@ func CheckC17(c *Ctx) {
 
 	// (2) Insert / searchNode agreement
 	ins := c.fn("helper", "Bst", "Insert")
-	srch := c.fn("helper", "Bst", "searchNode")
+	srch := c.anchorVia("helper", "Bst", "searchNode", c.P.Method("helper", "Bst", "Contains"), nil)
 	if ins != nil && srch != nil {
 		c.bstAgreement(info, ins.Decl, srch.Decl)
 	}
@@ -262,7 +264,7 @@ func (c *Ctx) bstAgreement(info *types.Info, ins, srch *ast.FuncDecl) {
 	run := c.Run
 	isValueOf := func(e ast.Expr) (string, bool) {
 		sel, ok := e.(*ast.SelectorExpr)
-		if !ok || sel.Sel.Name != "value" {
+		if !ok || sel.Sel.Name != bstF.value {
 			return "", false
 		}
 		id, ok := sel.X.(*ast.Ident)
@@ -411,7 +413,7 @@ func (c *Ctx) bstAgreement(info *types.Info, ins, srch *ast.FuncDecl) {
 				c.violate("bst-agreement", "helper.(*Bst).searchNode", "equal not found", stopPos, "searchNode does not stop on a node whose value equals the searched value")
 			}
 		default:
-			good := !st && insSide == srchSide && (insSide == "left") == (ord < 0)
+			good := !st && insSide == srchSide && (insSide == bstF.small) == (ord < 0)
 			run.Oblige(good)
 			if !good {
 				c.violate("bst-agreement", "helper.(*Bst).Insert/searchNode", names[ord]+" key", routeIf.Pos(),
@@ -422,15 +424,18 @@ func (c *Ctx) bstAgreement(info *types.Info, ins, srch *ast.FuncDecl) {
 }
 
 func other(s string) string {
-	if s == "left" {
-		return "right"
+	if s == bstF.small {
+		return bstF.large
 	}
-	return "left"
+	return bstF.small
 }
 
 func (c *Ctx) ringDiscipline(info *types.Info) {
 	run := c.Run
-	next := c.fn("helper", "Ring", "nextIndex")
+	next := c.anchorVia("helper", "Ring", "nextIndex", c.P.Method("helper", "Ring", "Put"), func(fi *load.FuncInfo) bool {
+		sig := fi.Fn.Type().(*types.Signature)
+		return sig.Params().Len() == 1 && sig.Results().Len() == 1
+	})
 	if next == nil {
 		return
 	}
@@ -444,7 +449,7 @@ func (c *Ctx) ringDiscipline(info *types.Info) {
 			return false
 		}
 		sel, ok := call.Args[0].(*ast.SelectorExpr)
-		return ok && sel.Sel.Name == "buffer"
+		return ok && sel.Sel.Name == ringF.buf
 	}
 	isModLen := func(e ast.Expr) bool {
 		if p, ok := e.(*ast.ParenExpr); ok {
@@ -487,12 +492,12 @@ func (c *Ctx) ringDiscipline(info *types.Info) {
 			switch x := n.(type) {
 			case *ast.IndexExpr:
 				sel, ok := x.X.(*ast.SelectorExpr)
-				if !ok || sel.Sel.Name != "buffer" {
+				if !ok || sel.Sel.Name != ringF.buf {
 					return true
 				}
 				nIdx++
 				good := isModLen(x.Index)
-				if s, ok := x.Index.(*ast.SelectorExpr); ok && (s.Sel.Name == "begin" || s.Sel.Name == "end") {
+				if s, ok := x.Index.(*ast.SelectorExpr); ok && (s.Sel.Name == ringF.begin || s.Sel.Name == ringF.end) {
 					good = true
 				}
 				run.Oblige(good)
@@ -503,12 +508,12 @@ func (c *Ctx) ringDiscipline(info *types.Info) {
 			case *ast.AssignStmt:
 				for i, l := range x.Lhs {
 					s, ok := l.(*ast.SelectorExpr)
-					if !ok || (s.Sel.Name != "begin" && s.Sel.Name != "end") || i >= len(x.Rhs) {
+					if !ok || (s.Sel.Name != ringF.begin && s.Sel.Name != ringF.end) || i >= len(x.Rhs) {
 						continue
 					}
 					good := false
 					if call, ok := x.Rhs[i].(*ast.CallExpr); ok {
-						if fn := callee(info, call); fn != nil && fn.Name() == "nextIndex" {
+						if fn := callee(info, call); fn != nil && next != nil && fn.Origin() == next.Fn.Origin() {
 							good = true
 						}
 					}
@@ -547,7 +552,7 @@ func (c *Ctx) ringInvariant() {
 		m := dtab.FromFuncDecl(info, fi.Decl)
 		touches := false
 		for _, s := range m.State {
-			if strings.HasSuffix(s, ".begin") || strings.HasSuffix(s, ".end") || strings.HasSuffix(s, ".empty") {
+			if strings.HasSuffix(s, "."+ringF.begin) || strings.HasSuffix(s, "."+ringF.end) || strings.HasSuffix(s, "."+ringF.empty) {
 				touches = true
 			}
 		}
@@ -564,7 +569,7 @@ func (c *Ctx) ringInvariant() {
 		if len(fi.Decl.Recv.List) == 1 && len(fi.Decl.Recv.List[0].Names) == 1 {
 			recv = fi.Decl.Recv.List[0].Names[0].Name
 		}
-		bN, eN, mN := recv+".begin", recv+".end", recv+".empty"
+		bN, eN, mN := recv+"."+ringF.begin, recv+"."+ringF.end, recv+"."+ringF.empty
 		for i, p := range m.Paths {
 			post := func(n string) sym.Expr {
 				if u, ok := p.Updates[n]; ok {
@@ -623,9 +628,9 @@ func (c *Ctx) ringInvariant() {
 					vals[exprString(kv.Key)] = kv.Value
 				}
 			}
-			b, hasB := vals["begin"]
-			e, hasE := vals["end"]
-			em, hasM := vals["empty"]
+			b, hasB := vals[ringF.begin]
+			e, hasE := vals[ringF.end]
+			em, hasM := vals[ringF.empty]
 			same := (!hasB && !hasE) || (hasB && hasE && exprString(b) == exprString(e))
 			if !hasB && hasE || hasB && !hasE {
 				if v, isC := constInt(info, map[bool]ast.Expr{true: b, false: e}[hasB]); isC && v == 0 {
@@ -640,6 +645,110 @@ func (c *Ctx) ringInvariant() {
 		run.Oblige(ok)
 		if !ok {
 			c.violate("ring-invariant", "helper.NewRing", "initial state", nr.Decl.Pos(), "a new ring must start empty with begin == end")
+		}
+	}
+}
+
+// The unexported fields of Ring and BstNode, found by what they are (the pinned names first).
+var ringF = struct{ buf, begin, end, empty string }{"buffer", "begin", "end", "empty"}
+var bstF = struct{ value, small, large string }{"value", "left", "right"}
+
+// resolveContainerFields identifies the fields of helper.Ring and helper.BstNode when they were
+// renamed: Ring has one slice (the buffer), one bool (empty) and two ints, of which `end` is the
+// one Put stores at; a BstNode has one non-pointer field (the value) and two children, of which
+// the smaller side is the one the minimum search (behind Min) follows.
+func (c *Ctx) resolveContainerFields() {
+	hp := c.P.Pkg("helper")
+	if hp == nil {
+		return
+	}
+	ringF = struct{ buf, begin, end, empty string }{"buffer", "begin", "end", "empty"}
+	bstF = struct{ value, small, large string }{"value", "left", "right"}
+	has := func(fs []fieldInfo, n string) bool {
+		for _, f := range fs {
+			if f.name == n {
+				return true
+			}
+		}
+		return false
+	}
+	rf := structFieldsOf(hp, "Ring")
+	if len(rf) > 0 && !(has(rf, "buffer") && has(rf, "begin") && has(rf, "end") && has(rf, "empty")) {
+		var ints []string
+		for _, f := range rf {
+			switch t := f.typ.Underlying().(type) {
+			case *types.Slice:
+				ringF.buf = f.name
+			case *types.Basic:
+				if t.Kind() == types.Bool {
+					ringF.empty = f.name
+				} else if t.Info()&types.IsInteger != 0 {
+					ints = append(ints, f.name)
+				}
+			}
+		}
+		if put := c.P.Method("helper", "Ring", "Put"); put != nil && len(ints) == 2 {
+			ast.Inspect(put.Decl.Body, func(n ast.Node) bool {
+				as, ok := n.(*ast.AssignStmt)
+				if !ok || len(as.Lhs) != 1 {
+					return true
+				}
+				if ix, ok := as.Lhs[0].(*ast.IndexExpr); ok {
+					if sel, ok := ix.Index.(*ast.SelectorExpr); ok {
+						ringF.end = sel.Sel.Name
+					}
+				}
+				return true
+			})
+			for _, n := range ints {
+				if n != ringF.end {
+					ringF.begin = n
+				}
+			}
+		}
+	}
+	nf := structFieldsOf(hp, "BstNode")
+	if len(nf) > 0 && !(has(nf, "value") && has(nf, "left") && has(nf, "right")) {
+		var kids []string
+		for _, f := range nf {
+			if _, isPtr := f.typ.(*types.Pointer); isPtr {
+				kids = append(kids, f.name)
+			} else {
+				bstF.value = f.name
+			}
+		}
+		if min := c.P.Method("helper", "Bst", "Min"); min != nil && len(kids) == 2 {
+			// the child the minimum search follows holds the smaller keys
+			follow := ""
+			var scan func(fi *load.FuncInfo, depth int)
+			scan = func(fi *load.FuncInfo, depth int) {
+				ast.Inspect(fi.Decl.Body, func(n ast.Node) bool {
+					switch x := n.(type) {
+					case *ast.SelectorExpr:
+						if (x.Sel.Name == kids[0] || x.Sel.Name == kids[1]) && follow == "" {
+							follow = x.Sel.Name
+						}
+					case *ast.CallExpr:
+						if depth < 2 {
+							if fn := callee(fi.Pkg.TypesInfo, x); fn != nil && !fn.Exported() {
+								if d := c.P.Decls[fn.Origin()]; d != nil && d.Decl.Body != nil {
+									scan(d, depth+1)
+								}
+							}
+						}
+					}
+					return true
+				})
+			}
+			scan(min, 0)
+			if follow != "" {
+				bstF.small = follow
+				for _, k := range kids {
+					if k != follow {
+						bstF.large = k
+					}
+				}
+			}
 		}
 	}
 }
